@@ -109,4 +109,13 @@ CHECKS = {
              'expiries, driven from a task and from timer callbacks; compared: log with virtual timestamps, state, '
              'output, get_state() expiry, number of live timer handles (<=1, 0 after stop), nothing delivered after stop.',
         note='Virtual time is exact on the 0.5 s grid; expiry reported by get_state() compared with 1e-4 s tolerance.'),
+    'C11': dict(
+        level='exploration', design_ref='DESIGN.md 4/C11',
+        technique=PBT + '; synchronous depth-first propagation model with per-block busy flags (start-up included) over generated event graphs; nesting depth of event() measured by instance-level instrumentation',
+        text='Generated event graphs (cycles, self-loops, diamonds) over relay probes, Inputs, Counters, two-state FSMs '
+             '(plain, chained self-event, zero-length timer), Repeat and OutputFunc blocks with rejecting/passing/editing '
+             'filters and EventCond, external sequences incl. unknown types and missing parameters; the model predicts '
+             'exactly whether a busy block is hit (start-up verdict, per-step return value or EdzedCircuitError, '
+             'Circuit.error) and the final state of every block; in non-fatal cases no block may keep its guard set.',
+        note='The guard is tested before EventCond is evaluated (as the code and the property wording do).'),
 }
